@@ -305,7 +305,7 @@ def phases(tier):
     extra = [] if quick else [Phase('fortran-engine', check_fortran, strategy=strat_fortran, examples=300)]
     return extra + [
         Phase('positions-enumerated', check_solve_t, gen=gen_enumerated(3 if quick else 4), exhaustive=True),
-        Phase('positions', check_solve_t, strategy=strategy(), examples=500 if quick else 12000),
-        Phase('solve-ranges', check_solve_range, strategy=strategy(max_statements=2), examples=200 if quick else 5000),
-        Phase('rejected-calls', check_rejected, strategy=strategy(max_statements=2), examples=300 if quick else 6000),
+        Phase('positions', check_solve_t, strategy=strategy(), examples=1200 if quick else 12000),
+        Phase('solve-ranges', check_solve_range, strategy=strategy(max_statements=2), examples=400 if quick else 5000),
+        Phase('rejected-calls', check_rejected, strategy=strategy(max_statements=2), examples=800 if quick else 6000),
     ]
